@@ -12,7 +12,7 @@ from simbox.framework import Check
 from simbox.normalize import results_by_codemod
 from simbox.util import dec, enc
 
-CONTENT_FAULTS = ["bad-utf8", "nul-bytes", "syntax-error", "empty", "latin1-cookie"]
+CONTENT_FAULTS = ["bad-utf8", "nul-bytes", "syntax-error", "empty", "latin1-cookie", "deep-chain"]
 SEAM_FAULTS = ["vanish-before-read", "read-eio", "read-eacces", "transform-raise", "node-raise", "codegen-raise"]
 XML_FAULTS = ["xml-malformed", "xml-truncated", "bad-utf8", "empty"]
 
@@ -51,6 +51,9 @@ def corrupt(kind, data: bytes) -> bytes:
         return b""
     if kind == "latin1-cookie":
         return b"# -*- coding: latin-1 -*-\nx_l1 = '\xe9'\n" + data
+    if kind == "deep-chain":
+        # parses (the native parser is iterative here) but rendering / visiting it recurses past the interpreter's limit
+        return data + b"\nx_deep = " + b" + ".join([b"1"] * 2500) + b"\n"
     if kind == "xml-malformed":
         return data.replace(b"</config>", b"</confg>")
     if kind == "xml-truncated":
